@@ -358,6 +358,6 @@ func bareReply(q []byte) []byte {
 
 func tokenOf(resp []byte) string { return peer.Token(resp) }
 
-func TestPropReplyNotLost(t *testing.T) { hx.Check(t, 6000, genCase, runCase) }
+func TestPropReplyNotLost(t *testing.T) { hx.Check(t, 18000, genCase, runCase) }
 
 func TestReplay(t *testing.T) { hx.Replay(t, "TestPropReplyNotLost", 20, runCase) }
